@@ -290,3 +290,7 @@ def selftest():
 
 def replay(ctx, case):
     check_sf(ctx, case)
+
+
+# dimensions added after the fourth and fifth round of seeded changes (DESIGN.md 8.3, 8.4); part of the rule reported in the evidence
+RULE += ' Added with the fourth and fifth round of seeded changes: words set through the attribute after construction; another class\'s expected key asked first; expected key held while the key buffer is refilled.'
